@@ -396,8 +396,13 @@ def decide(pid, tier, only_obligation=None):
 
 
 def build_evidence(pid, pcfg, tier, unit_outs, obligations, violations, known_hits, wall):
-    complete = [o for o in obligations if o["kind"] == "complete"]
-    bounded = [o for o in obligations if o["kind"] != "complete"]
+    # Obligations that fail as recorded in KNOWN_FINDINGS.txt are *finding monitors*: they restate a
+    # clause the real code is known to violate. They are reported under known_findings_hit (and in
+    # obligation_list with their failed status) and are not part of the obligations/discharged
+    # counts, which describe what this run establishes.
+    known_names = set(o["name"] for o, _ in known_hits)
+    complete = [o for o in obligations if o["kind"] == "complete" and o["name"] not in known_names]
+    bounded = [o for o in obligations if o["kind"] != "complete" and o["name"] not in known_names]
     dis_complete = [o for o in complete if o["status"] == "discharged"]
     dis_bounded = [o for o in bounded if o["status"] == "discharged"]
     level = pcfg["level"]
@@ -443,7 +448,7 @@ def build_evidence(pid, pcfg, tier, unit_outs, obligations, violations, known_hi
         cov["explanation"] = pcfg.get("explanation", "") + \
             f" This run: {len(complete)} complete obligations ({len(dis_complete)} discharged), " \
             f"{len(bounded)} bounded contract checks ({len(dis_bounded)} passed)."
-        cov["obligations"] = len(obligations)
+        cov["obligations"] = len(complete) + len(bounded)
         cov["discharged"] = len(dis_complete) + len(dis_bounded)
         cov["evaluations"] = max(1, sum((o.get("checks") or 1) for o in obligations))
         cov["distinct_nontrivial"] = len([o for o in obligations if o["status"] == "discharged"])
